@@ -498,18 +498,17 @@ class Check:
         todo = []
         for site, lst in bysite.items():
             lst.sort(key=lambda c: (len(c['call']), c['call']))
-            # up to 12 witnesses per site, at most 3 from any one job (different input lengths /
-            # templates give different witnesses; the first ones need not be the ones that reproduce)
-            perjob = {}
-            picked = []
+            # up to 48 witnesses per site, taken round-robin over the jobs that produced one (different
+            # input lengths / templates / histories give different witnesses, and the ones the real build
+            # reproduces need not come from the first jobs), at most 3 from any one job
+            byjob = {}
             for c in lst:
-                k = perjob.get(c['job'], 0)
-                if k >= 3:
-                    continue
-                perjob[c['job']] = k + 1
-                picked.append(c)
-                if len(picked) >= 12:
-                    break
+                byjob.setdefault(c['job'], []).append(c)
+            picked = []
+            for rnd in range(3):
+                for jb in sorted(byjob, key=lambda j: (len(byjob[j][0]['call']), j)):
+                    if rnd < len(byjob[jb]) and len(picked) < 48:
+                        picked.append(byjob[jb][rnd])
             for i, c in enumerate(picked):
                 c['rname'] = 'c%d_%d' % (len(todo), i)
                 todo.append(c)
